@@ -1,0 +1,13 @@
+//go:build verif
+
+// Contracts for this plugin, checked by /verif/govc (comment-only file).
+
+package mtu
+
+//@ func Handler4
+//@   implements handler.Handler4
+//@   modifies everything
+//@   ensures ret0 == resp && !ret1
+//@   ensures[C17:mtu-when-requested] requested4(req.Options, 26) ==> (has(resp.Options, 26) && dec_u16(resp.Options[26]) == uint16(mtu))
+//@   ensures[C17:mtu-only-when-requested] !requested4(req.Options, 26) ==> ((has(resp.Options, 26) <==> old(has(resp.Options, 26))) && resp.Options[26] == old(resp.Options[26]))
+//@   ensures[C17:other-options-untouched] forall k uint8: k != 26 ==> ((has(resp.Options, k) <==> old(has(resp.Options, k))) && resp.Options[k] == old(resp.Options[k]))
